@@ -56,6 +56,9 @@ func main() {
 		childDigest()
 		return
 	}
+	// snapshots on the Go side read float32 fields through protoreflect (float64), which quiets signalling NaNs;
+	// ask the model driver (started by vh.Main, inheriting the environment) to print the same canonical pattern
+	os.Setenv("PBMODEL_QUIET_NAN", "1")
 	vh.Main("msg", run)
 }
 
